@@ -1,5 +1,6 @@
 import Proofs.Chain
 import Proofs.Process
+import Proofs.Moves
 import Pegnet.Generated.Facts
 /-
   C15 — Scheduled issuance: developer rewards and one-time ledger adjustments.
@@ -114,6 +115,21 @@ theorem passed_height_was_committed (P : Params) (ch : Nat → Block) (hch : ∀
   obtain ⟨r, hr, hrh⟩ := List.mem_map.1 hmem
   exact List.mem_map.2 ⟨r, (List.mem_filter.1 hr).1, hrh⟩
 
+/-- **Developer payout, for every address and asset**: exactly the tabled share
+    `(perBlock/100)·pct·(144 from 2.0.2 on)` in PEG to each table entry, nothing to anybody else -/
+theorem developer_payout_exact (P : Params) (h : Nat) (ts : Int) (s : DB) :
+    Outcome (developersPayouts P h ts s)
+      (fun _ s' => ∀ a x, s'.bal a x = s.bal a x +
+        (P.devs.map (fun d => if a = d.1 ∧ x = tPEG then ((devReward P h d : Nat) : Int) else 0)).sum) :=
+  developersPayouts_exact P h ts s
+
+/-- **The mint, for every address and asset**: exactly the tabled amounts to the mint address -/
+theorem mint_exact (P : Params) (s : DB) :
+    Outcome (mintTokens P s)
+      (fun _ s' => ∀ a x, s'.bal a x = s.bal a x +
+        (P.mint.map (fun p => if a = P.mintAddr ∧ x = p.1 then ((p.2 * 100000000 : Nat) : Int) else 0)).sum) :=
+  mintTokens_exact P s
+
 end Pegnet.C15
 
 #print axioms Pegnet.C15.dev_table_total
@@ -128,3 +144,5 @@ end Pegnet.C15
 #print axioms Pegnet.C15.new_burn_zeroing_complete
 #print axioms Pegnet.C15.each_height_committed_at_most_once
 #print axioms Pegnet.C15.passed_height_was_committed
+#print axioms Pegnet.C15.developer_payout_exact
+#print axioms Pegnet.C15.mint_exact
